@@ -221,6 +221,8 @@ def run_for(run):
     spec = GROUPS.get(run.prop, [])
     if not spec:
         return
+    if run.prop == "C12":
+        probe_send_sync(run)     # first: if the types are no longer shareable the bounded runner (which shares them) will not build either
     # every property whose proof uses the assumed std-shape contracts also runs their bounded sanity check
     spec = list(spec) + (THOROUGH_GROUPS.get(run.prop, []) if run.tier == "thorough" else []) + [("helpers", ["helpers."])]
     res = run_groups(run, [g for g, _ in spec])
@@ -263,6 +265,71 @@ def run_for(run):
                   "native/gen.rs: all documents of depth <= 1 over 15 leaves plus curated and seeded random documents of depth <= 3; ASTs built directly "
                   "(never through the parser) from the selector / filter menus, 1-3 segments; a case is non-trivial when the expected or observed nodelist "
                   "is non-empty (per-unit groups: when the contract's expected result is non-empty)")
+
+
+
+# ---- C12: "from many threads at once" presupposes that a parsed query and the results can be shared between threads at all.  rustc decides that
+# (auto traits Send / Sync); a probe crate asserts it for the public types.  A tree in which the probe does not compile while the crate itself does
+# has lost the property at the type level (e.g. an Rc inside the AST): reported as a violation of purity.send_sync with the compiler's words.
+SEND_SYNC_PROBE = """use jsonpath_rust::parser::model::JpQuery;
+use jsonpath_rust::query::QueryRef;
+use serde_json::Value;
+fn assert_send_sync<T: Send + Sync>() {}
+fn main() {
+    assert_send_sync::<JpQuery>();
+    assert_send_sync::<QueryRef<'static, Value>>();
+    let q: JpQuery = jsonpath_rust::parser::parse_json_path("$.a[?@.b == 1]").unwrap();
+    let d: Value = serde_json::json!({"a": [{"b": 1}]});
+    let n: usize = std::thread::scope(|s| { let h: Vec<_> = (0..2).map(|_| s.spawn(|| jsonpath_rust::query::js_path_process(&q, &d).unwrap().len())).collect();
+                                           h.into_iter().map(|x| x.join().unwrap()).sum() });
+    assert_eq!(n, 2);
+}
+"""
+
+
+def probe_send_sync(run):
+    import fcntl
+    # a plain copy of the tree (nothing appended: the appended bounded back end may itself not compile against a changed AST)
+    crate = os.path.join(run.scratch, "plain-crate")
+    subprocess.run(["rsync", "-a", "--exclude", "target", "--exclude", ".git", run.repo.root + "/", crate + "/"], check=True)
+    probe = os.path.join(run.scratch, "sendsync-probe")
+    os.makedirs(os.path.join(probe, "src"), exist_ok=True)
+    with open(os.path.join(probe, "src/main.rs"), "w") as f:
+        f.write(SEND_SYNC_PROBE)
+    with open(os.path.join(probe, "Cargo.toml"), "w") as f:
+        f.write('[package]\nname = "verif-sendsync-probe"\nversion = "0.0.0"\nedition = "2021"\n\n[dependencies]\n'
+                'jsonpath-rust = { path = "../plain-crate" }\nserde_json = "1"\n\n[profile.dev]\nopt-level = 1\noverflow-checks = true\ndebug = false\n')
+    lock = os.path.join(run.repo.root, "Cargo.lock")
+    if os.path.exists(lock):
+        subprocess.run(["cp", lock, os.path.join(probe, "Cargo.lock")])
+    env = dict(os.environ, CARGO_NET_OFFLINE="true", CARGO_TARGET_DIR=TARGET, RUSTFLAGS="--cfg besok_jsonpath_rust_verif -A unexpected_cfgs -A warnings")
+    os.makedirs(TARGET, exist_ok=True)
+    with open(os.path.join(TARGET, ".verif-lock"), "w") as lk:
+        fcntl.flock(lk, fcntl.LOCK_EX)
+        p = subprocess.run(["cargo", "run", "--offline", "-q"], cwd=probe, env=env, capture_output=True, text=True)
+        fcntl.flock(lk, fcntl.LOCK_UN)
+    run.obligations += 1
+    rep = {"unit": "public types JpQuery, QueryRef<Value> (auto traits Send + Sync; two threads share one parsed query and one document)", "backend": "rustc",
+           "obligations": 1, "status": "proved" if p.returncode == 0 else "failed"}
+    run.unit_reports.append(rep)
+    if p.returncode == 0:
+        run.discharged += 1
+        rep["discharged"] = 1
+        run.samples.append({"obligation": "purity.send_sync", "unit": "JpQuery / QueryRef", "backend": "rustc (auto traits)", "result": "discharged"})
+        return
+    err = p.stderr
+    only_probe = "verif-sendsync-probe" in err and not re.search(r"could not compile `jsonpath-rust`", err)
+    if only_probe and re.search(r"E0277", err) and re.search(r"cannot be (sent|shared) between threads safely", err):
+        os.makedirs(os.path.join(VERIF, "replays"), exist_ok=True)
+        path = os.path.join(VERIF, "replays", f"{run.prop}_purity_send_sync.json")
+        with open(path, "w") as fh:
+            json.dump({"property": run.prop, "unit": "JpQuery / QueryRef", "backend": "rustc", "group": "send_sync", "failed_obligations": ["purity.send_sync"],
+                       "verifier_output": err[-3000:], "probe": SEND_SYNC_PROBE, "counterexample": None}, fh, indent=1)
+        run.violations.append({"unit": "purity", "obligations": ["purity.send_sync"], "features": [], "replay": path, "cex": None})
+        rep["verifier_output"] = err[-1500:]
+    else:
+        rep["status"] = "undecided"
+        run.undecided.append("purity.send_sync: the probe crate does not build for another reason than Send/Sync: " + err[-300:].replace("\n", " | "))
 
 
 # ---- C12: one process = one history.  The same pairs are evaluated in four orders, each in a fresh process; a pair whose result differs
